@@ -119,7 +119,7 @@ def main():
     pdp = os.path.join(out, "pnglexer_demo.ndjson")
     open(pdp, "w").write("".join(json.dumps(c) + "\n" for c in (pd1, pd2, pd3)))
     ppd = vlib.run([drive, "pnglexer", "-cases", pdp], timeout=600)
-    if json.loads(ppd.stdout.strip().splitlines()[-1])["mismatches"] < 4:      # pd1: pngmeta only; pd2, pd3: both loaders
+    if not pmis and json.loads(ppd.stdout.strip().splitlines()[-1])["mismatches"] < 4:      # pd1: pngmeta only; pd2, pd3: both loaders
         raise vlib.Infra("pnglexer binding demonstration: a changed expectation was not reported")
     # spec/WebpLexer.tla: webpmeta.extractMetadata at byte granularity, same binding
     rw = vlib.tlc("WebpLexer", "WebpLexer.cfg", heap="1g", workers=4)
@@ -141,7 +141,7 @@ def main():
     wdp = os.path.join(out, "webplexer_demo.ndjson")
     open(wdp, "w").write("".join(json.dumps(c) + "\n" for c in (wd1, wd2, wd3)))
     pwd = vlib.run([drive, "webplexer", "-cases", wdp], timeout=600)
-    if json.loads(pwd.stdout.strip().splitlines()[-1])["mismatches"] < 5:      # wd1: webpmeta only; wd2, wd3: both loaders
+    if not wmis and json.loads(pwd.stdout.strip().splitlines()[-1])["mismatches"] < 5:    # (meaningful only when the tree conforms)      # wd1: webpmeta only; wd2, wd3: both loaders
         raise vlib.Infra("webplexer binding demonstration: a changed expectation was not reported")
     ev = {"what": "spec/Extras.tla judged %d observations of the real code" % len(lines), "events_by_kind": kinds,
           "webp_lexer": {"tlc_distinct_states": rw.distinct, "inputs_replayed": wsum["cases"], "loads_compared": wsum["loads"],
